@@ -97,6 +97,10 @@ def main():
                                      "note": "array payload written with one write and, when the widths match, read with one checked bulk read - same bytes, same failures"}
     index["benign_nd_map_first_index_fastest"] = {"patch": "mutants/benign_nd_map_first_index_fastest.patch", "properties": [], "silent": ["C19", "C05", "C01", "C12"],
                                                   "note": "nd_map rewritten as one counter tuple with carry, first index fastest (half of seed C05c): every tuple still visited exactly once - correct"}
+    index["benign_affine_direct_composition"] = {"patch": "mutants/benign_affine_direct_composition.patch", "properties": [], "silent": ["C09", "C02", "C05"],
+                                                 "note": "affine*affine composed directly (A1*A2, A1*t2+t1) instead of through the (N+1)x(N+1) embedding - correct"}
+    index["benign_array_assign_reuse_buffer"] = {"patch": "mutants/benign_array_assign_reuse_buffer.patch", "properties": [], "silent": ["C12", "C15", "C05"],
+                                                 "note": "array copy assignment keeps its allocation when it exists and has the right size, and always updates the size - the correct version of seeds C12/C12b"}
     # seeded changes delivered by independent sub-agents (seeded/<id>/meta.json carries "check_with")
     import glob
     for mp in sorted(glob.glob(os.path.join(V, "seeded/*/meta.json"))):
